@@ -37,11 +37,12 @@ Qed.
 Inductive mcell := MA (a : nat) | MF (fd : fdef).
 (* mc: the COPIES — (a, c): the function object at a was made (GLOBAL_VEC 0 / COPYGLOB; ID_FUNC_ADDR) where the
    evaluator read the function cell c *)
+(* mi: the INT cells — cells bound (var x = <int_shaped>) to names that may be assigned to at level 6 *)
 Record morph := { mm : list mcell; mv : list (nat * list nat); mf : list (nat * (fdef * env));
-                  mc : list (nat * nat) }.
+                  mc : list (nat * nat); mi : list nat }.
 
 Definition mget (m : morph) (c : nat) : option mcell := nth_error (mm m) c.
-Definition msnoc (m : morph) (x : mcell) : morph := {| mm := mm m ++ [x]; mv := mv m; mf := mf m; mc := mc m |}.
+Definition msnoc (m : morph) (x : mcell) : morph := {| mm := mm m ++ [x]; mv := mv m; mf := mf m; mc := mc m; mi := mi m |}.
 
 (* the value relation: a is the image of the cell c, or a copy of the function c holds *)
 Definition vrel (m : morph) (c a : nat) : Prop := mget m c = Some (MA a) \/ In (a, c) (mc m).
@@ -77,11 +78,14 @@ Variable cp : bool.       (* are copies of function objects in the fragment *)
 Definition fun_addr (fd : fdef) (addr : nat) : Prop :=
   exists k kd, kd <> KTop /\ nth_error AF k = Some (kd, fd) /\ addr = nth (nstd + k) ftab 0%nat.
 
+(* the names that may be assigned to when copies are in the fragment *)
+Definition ivs : list ident := if cp then int_vars AF else [].
+
 Definition fun_rel (m : morph) (fd : fdef) (cenv : env) (vec addr : nat) : Prop :=
   fun_addr fd addr /\
   (forall x c, lookup x cenv = Some c -> is_fname FS x = false) /\
   exists l, In (vec, l) (mv m) /\
-    Forall2 (fun y a => exists c, lookup y cenv = Some c /\ vrel m c a) (fvs_fd TL fd) l.
+    Forall2 (fun y a => exists c, lookup y cenv = Some c /\ vrel m c a /\ (mem_id y ivs = true -> In c (mi m))) (fvs_fd TL fd) l.
 
 Definition cell_rel (m : morph) (v : cellval) (hc : hcell) : Prop :=
   match v, hc with
@@ -114,24 +118,29 @@ Record MS (m : morph) (st : state) (h : list hcell) : Prop := {
   ms_fself : forall c fd cenv k, In (c, (fd, cenv)) (mf m) -> nth_error AF k = Some (KNamed, fd) ->
              lookup (fd_name fd) cenv = Some c;
   ms_cp : forall a c, In (a, c) (mc m) -> cp_ok m (cells st) h a c;
-  ms_nocp : cp = false -> mc m = []
+  ms_nocp : cp = false -> mc m = [];
+  ms_int : forall c, In c (mi m) ->
+           exists v, nth_error (cells st) c = Some v /\ match v with CInt _ | CBool _ => True | _ => False end
 }.
 
 Definition ext (m m' : morph) : Prop :=
   (exists l, mm m' = mm m ++ l) /\ (exists l, mv m' = mv m ++ l) /\ (exists l, mf m' = mf m ++ l) /\
-  (exists l, mc m' = mc m ++ l).
+  (exists l, mc m' = mc m ++ l) /\ (exists l, mi m' = mi m ++ l).
+
+Ltac ext_solve := unfold ext; simpl; repeat split; first [exists []; now rewrite app_nil_r | eexists; reflexivity].
 
 Lemma ext_refl : forall m, ext m m.
-Proof. intros m. split; [|split; [|split]]; exists []; now rewrite app_nil_r. Qed.
+Proof. intros m. ext_solve. Qed.
 
 Lemma ext_trans : forall a b c, ext a b -> ext b c -> ext a c.
 Proof.
-  intros a b c ((l1 & E1) & (v1 & F1) & (w1 & G1) & (x1 & I1)) ((l2 & E2) & (v2 & F2) & (w2 & G2) & (x2 & I2)).
-  split; [|split; [|split]].
+  intros a b c ((l1 & E1) & (v1 & F1) & (w1 & G1) & (x1 & I1) & (y1 & J1)) ((l2 & E2) & (v2 & F2) & (w2 & G2) & (x2 & I2) & (y2 & J2)).
+  split; [|split; [|split; [|split]]].
   - exists (l1 ++ l2). rewrite E2, E1. now rewrite app_assoc.
   - exists (v1 ++ v2). rewrite F2, F1. now rewrite app_assoc.
   - exists (w1 ++ w2). rewrite G2, G1. now rewrite app_assoc.
   - exists (x1 ++ x2). rewrite I2, I1. now rewrite app_assoc.
+  - exists (y1 ++ y2). rewrite J2, J1. now rewrite app_assoc.
 Qed.
 
 Lemma ext_fcl : forall m m' x, ext m m' -> In x (mf m) -> In x (mf m').
@@ -147,10 +156,13 @@ Lemma ext_vec : forall m m' v l, ext m m' -> In (v, l) (mv m) -> In (v, l) (mv m
 Proof. intros m m' v l (_ & (l' & E) & _) H. rewrite E. apply in_or_app. auto. Qed.
 
 Lemma ext_snoc : forall m x, ext m (msnoc m x).
-Proof. intros. split; [|split; [|split]]; simpl; [eexists; eauto | exists []; now rewrite app_nil_r | exists []; now rewrite app_nil_r | exists []; now rewrite app_nil_r]. Qed.
+Proof. intros. ext_solve. Qed.
 
 Lemma ext_cp : forall m m' x, ext m m' -> In x (mc m) -> In x (mc m').
-Proof. intros m m' x (_ & _ & _ & (l & E)) H. rewrite E. apply in_or_app. auto. Qed.
+Proof. intros m m' x (_ & _ & _ & (l & E) & _) H. rewrite E. apply in_or_app. auto. Qed.
+
+Lemma ext_mi : forall m m' x, ext m m' -> In x (mi m) -> In x (mi m').
+Proof. intros m m' x (_ & _ & _ & _ & (l & E)) H. rewrite E. apply in_or_app. auto. Qed.
 
 Lemma vrel_ext : forall m m' c a, ext m m' -> vrel m c a -> vrel m' c a.
 Proof. intros m m' c a He [H | H]; [left; eapply ext_nth; eauto | right; eapply ext_cp; eauto]. Qed.
@@ -162,7 +174,8 @@ Lemma fun_rel_ext : forall m m' fd cenv vec addr, ext m m' -> fun_rel m fd cenv 
   fun_rel m' fd cenv vec addr.
 Proof.
   intros m m' fd cenv vec addr He (Ha & Hnf & l & Hin & HF). split; [exact Ha|]. split; [exact Hnf|]. exists l. split; [eapply ext_vec; eauto|].
-  eapply Forall2_imp; [|exact HF]. intros y a (c & H1 & H2). exists c. split; [exact H1 | eapply vrel_ext; eauto].
+  eapply Forall2_imp; [|exact HF]. intros y a (c & H1 & H2 & H3). exists c. split; [exact H1|]. split; [eapply vrel_ext; eauto|].
+  intros Hy. eapply ext_mi; eauto.
 Qed.
 
 Lemma cell_rel_ext : forall m m' v hc, ext m m' -> cell_rel m v hc -> cell_rel m' v hc.
@@ -288,13 +301,13 @@ Definition frec (c : nat) (v : cellval) : list (nat * (fdef * env)) :=
 Lemma MS_alloc_gen : forall m st h v hc c st' pad,
   MS m st h -> cell_rel m v hc -> alloc st v = (c, st') ->
   (forall fd cenv k, v = CFun fd cenv -> nth_error AF k = Some (KNamed, fd) -> lookup (fd_name fd) cenv = Some c) ->
-  let m' := {| mm := mm m ++ [MA (length h + length pad)]; mv := mv m; mf := mf m ++ frec c v; mc := mc m |} in
+  let m' := {| mm := mm m ++ [MA (length h + length pad)]; mv := mv m; mf := mf m ++ frec c v; mc := mc m; mi := mi m |} in
   MS m' st' (h ++ pad ++ [hc]) /\ vrel m' c (length h + length pad) /\ ext m m' /\
   out st' = out st.
 Proof.
   intros m st h v hc c st' pad HMS Hv Ha Hself m'. unfold alloc in Ha. inversion Ha; subst c st'; clear Ha.
   set (a0 := (length h + length pad)%nat) in *.
-  assert (He : ext m m') by (split; [|split; [|split]]; simpl; [eexists; reflexivity | exists []; now rewrite app_nil_r | eexists; reflexivity | exists []; now rewrite app_nil_r]).
+  assert (He : ext m m') by ext_solve.
   assert (Hnew : forall c a, (length (mm m) <= c)%nat -> mget m' c = Some (MA a) -> c = length (mm m) /\ a = a0).
   { intros c a Hge Hc. unfold mget, m' in Hc. simpl in Hc. rewrite nth_error_app2 in Hc by assumption.
     destruct (c - length (mm m))%nat as [|d] eqn:Hd; simpl in Hc; [|destruct d; discriminate].
@@ -349,6 +362,8 @@ Proof.
       * intros c1 fd cenv Hc. rewrite nth_error_app1; [exact Hc | apply nth_error_Some; congruence].
       * intros a1 vec addr Hh. rewrite nth_error_app1; [exact Hh | apply nth_error_Some; congruence].
     + apply (ms_nocp _ _ _ HMS).
+    + intros c Hin. destruct (ms_int _ _ _ HMS c Hin) as (w & Hw & Hk). exists w. split; [|exact Hk].
+      rewrite nth_error_app1; [exact Hw | apply nth_error_Some; congruence].
   - left. unfold mget, m'. simpl. rewrite <- Hlen, nth_error_app2, Nat.sub_diag by lia. reflexivity.
   - exact He.
   - reflexivity.
@@ -382,13 +397,26 @@ Qed.
 
 (* assignment: the payload of the left cell is overwritten on both sides (whatever it held: a mapped cell's
    image is never a vector; a recorded closure cell becomes an int cell) *)
-Lemma MS_assign : forall m st h cl al v z, MS m st h -> cp = false -> vrel m cl al ->
+Lemma MS_assign : forall m st h cl al v z, MS m st h -> cp = false \/ In cl (mi m) -> vrel m cl al ->
   val_rel v z -> MS m (set_cell st cl v) (list_upd h al (HInt z)).
 Proof.
-  intros m st h cl al v z HMS Hcp Hl0 Hv.
-  pose proof (ms_nocp _ _ _ HMS Hcp) as Hmc.
-  assert (Hl : mget m cl = Some (MA al)) by (destruct Hl0 as [Hx | Hx]; [exact Hx | rewrite Hmc in Hx; destruct Hx]).
+  intros m st h cl al v z HMS Hsafe Hl0 Hv.
   assert (Hiv : match v with CInt _ | CBool _ => True | _ => False end) by (destruct v; simpl in Hv; auto).
+  (* the left cell has no copies: there are none, or it holds an int *)
+  assert (Hnc : forall a c, In (a, c) (mc m) -> c <> cl /\ a <> al).
+  { intros a c Hin. destruct Hsafe as [Hcp | Hmi].
+    - rewrite (ms_nocp _ _ _ HMS Hcp) in Hin. destruct Hin.
+    - destruct (ms_int _ _ _ HMS cl Hmi) as (w & Hw & Hk).
+      destruct (ms_cp _ _ _ HMS a c Hin) as (fd & cenv & vec & addr & Hc & Hh & _).
+      split; [intros ->; rewrite Hw in Hc; inversion Hc; subst w; contradiction|].
+      intros ->. destruct Hl0 as [Hx | Hx].
+      + destruct (ms_rel _ _ _ HMS cl al Hx) as (v' & hc & Hc' & Hh' & Hr & _).
+        rewrite Hw in Hc'. inversion Hc'; subst v'. rewrite Hh in Hh'. inversion Hh'; subst hc.
+        destruct w; simpl in Hr; contradiction.
+      + destruct (ms_cp _ _ _ HMS al cl Hx) as (fd' & cenv' & vec' & addr' & Hc' & _).
+        rewrite Hw in Hc'. inversion Hc'; subst w. contradiction. }
+  assert (Hl : mget m cl = Some (MA al)).
+  { destruct Hl0 as [Hx | Hx]; [exact Hx|]. exfalso. destruct (Hnc al cl Hx) as [Hy _]. apply Hy. reflexivity. }
   constructor; simpl.
   - rewrite list_upd_length. apply (ms_len _ _ _ HMS).
   - intros c a Hm. destruct (ms_rel _ _ _ HMS c a Hm) as (v' & z' & Hc & Hh & Hr & Hf).
@@ -408,11 +436,25 @@ Proof.
     intros ->. destruct (ms_rel _ _ _ HMS cl v0 Hl) as (v' & hc & _ & Hh & Hr & _).
     rewrite (ms_vec _ _ _ HMS _ _ Hin) in Hh. inversion Hh; subst hc. destruct v'; simpl in Hr; contradiction.
   - intros c fd cenv Hin. destruct (Nat.eq_dec c cl) as [-> | Hne].
-    + right. split; [exact Hcp|]. exists v. split; [|exact Hiv]. apply nth_error_list_upd_same. eapply MS_fcl_lt; eauto.
+    + destruct Hsafe as [Hcp | Hmi].
+      * right. split; [exact Hcp|]. exists v. split; [|exact Hiv]. apply nth_error_list_upd_same. eapply MS_fcl_lt; eauto.
+      * (* an int cell: a recorded cell that holds an int — only without copies *)
+        destruct (ms_int _ _ _ HMS cl Hmi) as (w & Hw & Hk).
+        destruct (ms_fcl _ _ _ HMS _ _ _ Hin) as [E | (Hcp & _)].
+        -- rewrite Hw in E. inversion E; subst w. contradiction.
+        -- right. split; [exact Hcp|]. exists v. split; [|exact Hiv]. apply nth_error_list_upd_same. eapply MS_fcl_lt; eauto.
     + rewrite nth_error_list_upd_other by congruence. apply (ms_fcl _ _ _ HMS _ _ _ Hin).
   - exact (ms_fself _ _ _ HMS).
-  - intros a c Hin. rewrite Hmc in Hin. destruct Hin.
+  - intros a c Hin. destruct (Hnc a c Hin) as [N1 N2].
+    destruct (ms_cp _ _ _ HMS a c Hin) as (fd & cenv & vec & addr & Hc & Hh & Hd).
+    exists fd, cenv, vec, addr. split; [rewrite nth_error_list_upd_other by congruence; exact Hc|].
+    split; [rewrite nth_error_list_upd_other by congruence; exact Hh | exact Hd].
   - exact (ms_nocp _ _ _ HMS).
+  - intros c Hin. destruct (Nat.eq_dec c cl) as [-> | Hne].
+    + exists v. split; [|exact Hiv]. apply nth_error_list_upd_same.
+      destruct (ms_int _ _ _ HMS cl Hin) as (w & Hw & _). apply nth_error_Some. congruence.
+    + destruct (ms_int _ _ _ HMS c Hin) as (w & Hw & Hk). exists w. split; [|exact Hk].
+      rewrite nth_error_list_upd_other by congruence. exact Hw.
 Qed.
 
 (* a run of sibling functions: k new cells (the evaluator's closures over the common environment e'), their
@@ -425,15 +467,15 @@ Lemma MS_run : forall m st h H' (fds : list fdef) (e : env) newvecs,
   let e' := func_env fds c0 e in
   (forall x c, lookup x e' = Some c -> is_fname FS x = false) ->
   let m' := {| mm := mm m ++ map MA (seq (length h) (length fds)); mv := mv m ++ newvecs;
-               mf := mf m ++ combine (seq c0 (length fds)) (map (fun f => (f, e')) fds); mc := mc m |} in
+               mf := mf m ++ combine (seq c0 (length fds)) (map (fun f => (f, e')) fds); mc := mc m; mi := mi m |} in
   (forall j fd, nth_error fds j = Some fd ->
      exists v ad addr, nth_error H' (length h + j) = Some (HFun v addr) /\ In (v, ad) newvecs /\
        fun_addr fd addr /\
-       Forall2 (fun y a => exists c, lookup y e' = Some c /\ vrel m' c a) (fvs_fd TL fd) ad) ->
+       Forall2 (fun y a => exists c, lookup y e' = Some c /\ vrel m' c a /\ (mem_id y ivs = true -> In c (mi m'))) (fvs_fd TL fd) ad) ->
   MS m' (add_cells st (map (fun f => CFun f e') fds)) H'.
 Proof.
   intros m st h H' fds e newvecs HMS Hnd Hpre Hnv c0 e' Hnf m' Hslots.
-  assert (He : ext m m') by (split; [|split; [|split]]; simpl; [eexists; reflexivity | eexists; reflexivity | eexists; reflexivity | exists []; now rewrite app_nil_r]).
+  assert (He : ext m m') by ext_solve.
   assert (Hlen := ms_len _ _ _ HMS).
   assert (Hnew : forall c a, (length (mm m) <= c)%nat -> mget m' c = Some (MA a) ->
             exists j, c = (length (mm m) + j)%nat /\ a = (length h + j)%nat /\ (j < length fds)%nat).
@@ -514,6 +556,8 @@ Proof.
     + intros c1 fd cenv Hc. simpl. rewrite nth_error_app1; [exact Hc | apply nth_error_Some; congruence].
     + intros a1 vec addr Hh. rewrite Hpre; [exact Hh | apply nth_error_Some; congruence].
   - exact (ms_nocp _ _ _ HMS).
+  - intros c Hin. destruct (ms_int _ _ _ HMS c Hin) as (w & Hw & Hk). exists w. split; [|exact Hk].
+    simpl. rewrite nth_error_app1; [exact Hw | apply nth_error_Some; congruence].
 Qed.
 
 (* one closure (a function expression): a new cell, a new function object after a new vector *)
@@ -521,14 +565,14 @@ Lemma MS_closure : forall m st h fd (e : env) addrs addr c st',
   MS m st h -> alloc st (CFun fd e) = (c, st') ->
   fun_addr fd addr -> (forall x c, lookup x e = Some c -> is_fname FS x = false) ->
   (forall k, nth_error AF k <> Some (KNamed, fd)) ->
-  Forall2 (fun y a => exists c, lookup y e = Some c /\ vrel m c a) (fvs_fd TL fd) addrs ->
-  let m' := {| mm := mm m ++ [MA (S (length h))]; mv := mv m ++ [(length h, addrs)]; mf := mf m ++ [(c, (fd, e))]; mc := mc m |} in
+  Forall2 (fun y a => exists c, lookup y e = Some c /\ vrel m c a /\ (mem_id y ivs = true -> In c (mi m))) (fvs_fd TL fd) addrs ->
+  let m' := {| mm := mm m ++ [MA (S (length h))]; mv := mv m ++ [(length h, addrs)]; mf := mf m ++ [(c, (fd, e))]; mc := mc m; mi := mi m |} in
   MS m' st' (h ++ [HVec addrs; HFun (length h) addr]) /\ vrel m' c (S (length h)) /\ ext m m' /\
   out st' = out st.
 Proof.
   intros m st h fd e addrs addr c st' HMS Ha Hfa Hnf Hnn HF m'.
-  set (m1 := {| mm := mm m; mv := mv m ++ [(length h, addrs)]; mf := mf m; mc := mc m |}).
-  assert (He1 : ext m m1) by (split; [|split; [|split]]; simpl; [exists []; now rewrite app_nil_r | eexists; reflexivity | exists []; now rewrite app_nil_r | exists []; now rewrite app_nil_r]).
+  set (m1 := {| mm := mm m; mv := mv m ++ [(length h, addrs)]; mf := mf m; mc := mc m; mi := mi m |}).
+  assert (He1 : ext m m1) by ext_solve.
   assert (HMS1 : MS m1 st (h ++ [HVec addrs])).
   { constructor.
     - apply (ms_len _ _ _ HMS).
@@ -545,7 +589,8 @@ Proof.
     - intros a0 c0 Hin. eapply cp_ok_mono; [exact He1 | | | apply (ms_cp _ _ _ HMS _ _ Hin)].
       + auto.
       + intros a1 vec addr0 Hh. rewrite nth_error_app1; [exact Hh | apply nth_error_Some; congruence].
-    - apply (ms_nocp _ _ _ HMS). }
+    - apply (ms_nocp _ _ _ HMS).
+    - apply (ms_int _ _ _ HMS). }
   assert (Hrel : cell_rel m1 (CFun fd e) (HFun (length h) addr)).
   { simpl. split; [exact Hfa|]. split; [exact Hnf|]. exists addrs. split.
     - unfold m1. simpl. apply in_or_app. right. left. reflexivity.
@@ -557,7 +602,7 @@ Proof.
   replace (length h + 1)%nat with (S (length h)) in A, B by lia.
   rewrite <- app_assoc in A. simpl in A.
   split; [exact A|]. split; [exact B|]. split; [|exact C].
-  unfold m'. split; [|split; [|split]]; simpl; [eexists; reflexivity | eexists; reflexivity | eexists; reflexivity | exists []; now rewrite app_nil_r].
+  unfold m'. ext_solve.
 Qed.
 
 (* a copy of a function object: a new object (after `pad` machine-only cells) for the function the cell c holds *)
@@ -565,11 +610,11 @@ Lemma MS_copy : forall m st h c fd cenv vec addr pad,
   MS m st h -> cp = true -> nth_error (cells st) c = Some (CFun fd cenv) ->
   ((exists kidx, nth_error AF kidx = Some (KTop, fd) /\ addr = nth (nstd + kidx) ftab 0%nat /\ cenv = []) \/
    (fun_rel m fd cenv vec addr /\ In (c, (fd, cenv)) (mf m))) ->
-  let m' := {| mm := mm m; mv := mv m; mf := mf m; mc := mc m ++ [((length h + length pad)%nat, c)] |} in
+  let m' := {| mm := mm m; mv := mv m; mf := mf m; mc := mc m ++ [((length h + length pad)%nat, c)]; mi := mi m |} in
   MS m' st (h ++ pad ++ [HFun vec addr]) /\ vrel m' c (length h + length pad) /\ ext m m'.
 Proof.
   intros m st h c fd cenv vec addr pad HMS Hcp Hc Hd m'.
-  assert (He : ext m m') by (split; [|split; [|split]]; simpl; [exists []; now rewrite app_nil_r | exists []; now rewrite app_nil_r | exists []; now rewrite app_nil_r | eexists; reflexivity]).
+  assert (He : ext m m') by ext_solve.
   assert (Hh : forall a x, nth_error h a = Some x -> nth_error (h ++ pad ++ [HFun vec addr]) a = Some x).
   { intros a x Hx. rewrite nth_error_app1; [exact Hx | apply nth_error_Some; congruence]. }
   split; [|split; [|exact He]].
@@ -588,10 +633,38 @@ Proof.
         -- rewrite app_assoc, nth_error_app2 by (rewrite app_length; lia). rewrite app_length, Nat.sub_diag. reflexivity.
         -- destruct Hd as [Hd | (D1 & D2)]; [left; exact Hd | right]. split; [eapply fun_rel_ext; eauto | exact D2].
     + intros Hx. congruence.
+    + apply (ms_int _ _ _ HMS).
   - right. unfold m'. simpl. apply in_or_app. right. left. reflexivity.
 Qed.
 
+(* a cell that holds an int is recorded as an int cell *)
+Lemma MS_addint : forall m st h c v, MS m st h -> nth_error (cells st) c = Some v ->
+  match v with CInt _ | CBool _ => True | _ => False end ->
+  let m' := {| mm := mm m; mv := mv m; mf := mf m; mc := mc m; mi := mi m ++ [c] |} in
+  MS m' st h /\ ext m m' /\ In c (mi m').
+Proof.
+  intros m st h c v HMS Hc Hv m'.
+  assert (He : ext m m') by ext_solve.
+  split; [|split; [exact He | unfold m'; simpl; apply in_or_app; right; left; reflexivity]].
+  constructor.
+  - apply (ms_len _ _ _ HMS).
+  - intros c0 a Hm. destruct (ms_rel _ _ _ HMS c0 a Hm) as (v0 & hc & A & B & D & E).
+    exists v0, hc. split; [exact A|]. split; [exact B|]. split; [eapply cell_rel_ext; eauto | exact E].
+  - apply (ms_inj _ _ _ HMS).
+  - apply (ms_fun _ _ _ HMS).
+  - apply (ms_vec _ _ _ HMS).
+  - apply (ms_fcl _ _ _ HMS).
+  - apply (ms_fself _ _ _ HMS).
+  - intros a c0 Hin. eapply cp_ok_mono; [exact He | | | apply (ms_cp _ _ _ HMS _ _ Hin)]; auto.
+  - apply (ms_nocp _ _ _ HMS).
+  - intros c0 Hin. unfold m' in Hin. simpl in Hin. apply in_app_or in Hin. destruct Hin as [Hin | [<- | []]].
+    + apply (ms_int _ _ _ HMS _ Hin).
+    + exists v. split; [exact Hc | exact Hv].
+Qed.
+
 End Rel.
+
+Ltac ext_solve := unfold ext; simpl; repeat split; first [exists []; now rewrite app_nil_r | eexists; reflexivity].
 
 Lemma hint_app : forall h l a z, hint h a = Some z -> hint (h ++ l) a = Some z.
 Proof.
@@ -712,24 +785,25 @@ Definition access (G : ginfo) (fc : fctx) (ce : cenv) (L : Z) (stk gl : list nat
    function's vector gp holds gl *)
 (* the running function is a NAMED nested function f (and its name is not hidden by a slot): the evaluator's
    environment binds f to the recorded cell of f's own closure, whose captured environment the vector gp holds *)
-Definition self_match (G : ginfo) (fc : fctx) (gp : nat) (gl : list nat) (m : morph) (e : env) (ce : cenv) : Prop :=
+Definition self_match (G : ginfo) (IV : list ident) (fc : fctx) (gp : nat) (gl : list nat) (m : morph) (e : env) (ce : cenv) : Prop :=
   forall f, fc_self fc = Some f -> clookup f ce = None ->
     exists cf kself sfd scenv,
       lookup f e = Some cf /\ In (cf, (sfd, scenv)) (mf m) /\ fd_name sfd = f /\
       nth_error (g_all G) kself = Some (KNamed, sfd) /\ In (gp, gl) (mv m) /\
-      Forall2 (fun y a => exists c, lookup y scenv = Some c /\ vrel m c a) (fvs_fd (g_tl G) sfd) gl /\
+      Forall2 (fun y a => exists c, lookup y scenv = Some c /\ vrel m c a /\ (mem_id y IV = true -> In c (mi m))) (fvs_fd (g_tl G) sfd) gl /\
       (forall x c, lookup x scenv = Some c -> is_fname (g_sigs G) x = false).
 
-Lemma self_match_ext : forall G fc gp gl m m' e ce, self_match G fc gp gl m e ce -> ext m m' ->
-  self_match G fc gp gl m' e ce.
+Lemma self_match_ext : forall G IV fc gp gl m m' e ce, self_match G IV fc gp gl m e ce -> ext m m' ->
+  self_match G IV fc gp gl m' e ce.
 Proof.
-  intros G fc gp gl m m' e ce H He f Hf Hc. destruct (H f Hf Hc) as (cf & k & sfd & scenv & A & B & C & D & E & F & I).
+  intros G IV fc gp gl m m' e ce H He f Hf Hc. destruct (H f Hf Hc) as (cf & k & sfd & scenv & A & B & C & D & E & F & I).
   exists cf, k, sfd, scenv. split; [exact A|]. split; [eapply ext_fcl; eauto|]. split; [exact C|]. split; [exact D|].
   split; [eapply ext_vec; eauto|]. split; [|exact I].
-  eapply Forall2_imp; [|exact F]. intros y a (c & Y1 & Y2). exists c. split; [exact Y1 | eapply vrel_ext; eauto].
+  eapply Forall2_imp; [|exact F]. intros y a (c & Y1 & Y2 & Y3). exists c. split; [exact Y1|]. split; [eapply vrel_ext; eauto|].
+  intros Hy. eapply ext_mi; eauto.
 Qed.
 
-Definition env_match (G : ginfo) (fc : fctx) (gp : nat) (gl : list nat) (m : morph) (e : env) (ce : cenv)
+Definition env_match (G : ginfo) (IV : list ident) (fc : fctx) (gp : nat) (gl : list nat) (m : morph) (e : env) (ce : cenv)
   (sc : list ident) (L : Z) (stk : list nat) : Prop :=
   (forall x, mem_id x sc = true ->
     exists c a, lookup x e = Some c /\ vrel m c a /\ access G fc ce L stk gl x a) /\
@@ -738,19 +812,21 @@ Definition env_match (G : ginfo) (fc : fctx) (gp : nat) (gl : list nat) (m : mor
     exists cf, lookup f (g_genv G) = Some cf /\ mget m cf = Some (MF fd)) /\
   (gl = [] \/ In (gp, gl) (mv m)) /\
   ((forall x i, clookup x ce = Some i -> is_fname (g_sigs G) x = false /\ mem_id x sc = true) /\
-   self_match G fc gp gl m e ce /\
-   (forall f, fc_self fc = Some f -> mem_id f sc = false)).
+   self_match G IV fc gp gl m e ce /\
+   (forall f, fc_self fc = Some f -> mem_id f sc = false) /\
+   (forall x c, mem_id x sc = true -> mem_id x IV = true -> lookup x e = Some c -> In c (mi m))).
 
-Lemma env_match_ext : forall G fc gp gl m m' e ce sc L stk, env_match G fc gp gl m e ce sc L stk -> ext m m' ->
-  env_match G fc gp gl m' e ce sc L stk.
+Lemma env_match_ext : forall G IV fc gp gl m m' e ce sc L stk, env_match G IV fc gp gl m e ce sc L stk -> ext m m' ->
+  env_match G IV fc gp gl m' e ce sc L stk.
 Proof.
-  intros G fc gp gl m m' e ce sc L stk (H & Hn & Hf & Hv & Hc & Hs & Hsc) He. split; [|split; [|split; [|split; [|split; [|split]]]]]; auto.
+  intros G IV fc gp gl m m' e ce sc L stk (H & Hn & Hf & Hv & Hc & Hs & Hsc & Hiv) He. split; [|split; [|split; [|split; [|split; [|split; [|split]]]]]]; auto.
   - intros x Hx. destruct (H x Hx) as (c & a & H3 & H4 & H5).
     exists c, a. split; [exact H3|]. split; [eapply vrel_ext; eauto | exact H5].
   - intros f fd Hfd. destruct (Hf f fd Hfd) as (cf & H1 & H2). exists cf. split; auto.
     eapply ext_nth; eauto.
   - destruct Hv as [Hv | Hv]; [left; exact Hv | right; eapply ext_vec; eauto].
   - eapply self_match_ext; eauto.
+  - intros x c Hs0 Hx Hl. eapply ext_mi; eauto.
 Qed.
 
 Lemma access_push : forall G fc ce L stk gl x a a0, access G fc ce L stk gl x a ->
@@ -761,21 +837,22 @@ Proof.
   replace (Z.to_nat (L + 1 - i)) with (S (Z.to_nat (L - i))) by lia. exact H2.
 Qed.
 
-Lemma env_match_push : forall G fc gp gl m e ce sc L stk a0, env_match G fc gp gl m e ce sc L stk ->
-  env_match G fc gp gl m e ce sc (L + 1) (a0 :: stk).
+Lemma env_match_push : forall G IV fc gp gl m e ce sc L stk a0, env_match G IV fc gp gl m e ce sc L stk ->
+  env_match G IV fc gp gl m e ce sc (L + 1) (a0 :: stk).
 Proof.
-  intros G fc gp gl m e ce sc L stk a0 (H & Hn & Hf & Hv & Hc). split; [|split; [|split; [|split]]]; auto.
+  intros G IV fc gp gl m e ce sc L stk a0 (H & Hn & Hf & Hv & Hc). split; [|split; [|split; [|split]]]; auto.
   intros x Hx. destruct (H x Hx) as (c & a & H3 & H4 & H5).
   exists c, a. repeat split; auto. apply access_push. exact H5.
 Qed.
 
-Lemma env_match_bind : forall G fc gp gl m e ce sc L stk x c a, env_match G fc gp gl m e ce sc L stk ->
+Lemma env_match_bind : forall G IV fc gp gl m e ce sc L stk x c a, env_match G IV fc gp gl m e ce sc L stk ->
   vrel m c a -> is_fname (g_sigs G) x = false -> self_is (fc_self fc) x = false ->
-  env_match G fc gp gl m ((x, c) :: e) ((x, L + 1) :: ce) (x :: sc) (L + 1) (a :: stk).
+  (mem_id x IV = true -> In c (mi m)) ->
+  env_match G IV fc gp gl m ((x, c) :: e) ((x, L + 1) :: ce) (x :: sc) (L + 1) (a :: stk).
 Proof.
-  intros G fc gp gl m e ce sc L stk x c a H Hm Hx Hsx.
-  pose proof (env_match_push _ _ _ _ _ _ _ _ _ _ a H) as (Hp & _ & _ & _ & _).
-  destruct H as (H & Hn & Hf & Hv & Hc & Hs & Hsc). split; [|split; [|split; [|split; [|split; [|split]]]]]; auto.
+  intros G IV fc gp gl m e ce sc L stk x c a H Hm Hx Hsx Hxi.
+  pose proof (env_match_push _ _ _ _ _ _ _ _ _ _ _ a H) as (Hp & _ & _ & _ & _).
+  destruct H as (H & Hn & Hf & Hv & Hc & Hs & Hsc & Hiv). split; [|split; [|split; [|split; [|split; [|split; [|split]]]]]]; auto.
   - intros y Hy. simpl in Hy. simpl. destruct (N.eqb y x) eqn:Exy.
     + exists c, a. repeat split; auto. unfold access. simpl. rewrite Exy. split; [lia|].
       replace (Z.to_nat (L + 1 - (L + 1))) with 0%nat by lia. reflexivity.
@@ -791,6 +868,9 @@ Proof.
     destruct (Hs f Hf0 Hcl) as (cf & k & sfd & scenv & A & B). exists cf, k, sfd, scenv. split; [|exact B].
     simpl. rewrite Efx. exact A.
   - intros f Hf0. simpl. unfold self_is in Hsx. rewrite Hf0 in Hsx. rewrite N.eqb_sym in Hsx. rewrite Hsx. simpl. apply Hsc. exact Hf0.
+  - intros y c' Hys Hy Hl. simpl in Hl, Hys. destruct (N.eqb y x) eqn:Exy.
+    + apply N.eqb_eq in Exy. subst y. inversion Hl; subst c'. auto.
+    + simpl in Hys. eapply Hiv; eauto.
 Qed.
 
 (* ---- runs of sibling functions: the two environments ------------------------------------------------ *)
@@ -866,24 +946,24 @@ Proof. exact nth_error_rev_seq. Qed.
 
 (* the evaluator's recursive environment and the machine's slots agree, at the level after ALLOC, before any
    closure of the run is made (env_match does not look at the heap), whatever vectors will be recorded *)
-Lemma env_match_run : forall G fc gp gl m e ce sc L stk fds (st : state) (h : list hcell) nv nf,
-  env_match G fc gp gl m e ce sc L stk ->
+Lemma env_match_run : forall G IV fc gp gl m e ce sc L stk fds (st : state) (h : list hcell) nv nf,
+  env_match G IV fc gp gl m e ce sc L stk ->
   NoDup (map fd_name fds) ->
   (forall f, In f fds -> mem_id (fd_name f) sc = false /\ is_fname (g_sigs G) (fd_name f) = false /\
-                         self_is (fc_self fc) (fd_name f) = false) ->
+                         self_is (fc_self fc) (fd_name f) = false /\ mem_id (fd_name f) IV = false) ->
   length (mm m) = length (cells st) ->
   let k := length fds in
-  env_match G fc gp gl {| mm := mm m ++ map MA (seq (length h) k); mv := mv m ++ nv; mf := mf m ++ nf; mc := mc m |}
+  env_match G IV fc gp gl {| mm := mm m ++ map MA (seq (length h) k); mv := mv m ++ nv; mf := mf m ++ nf; mc := mc m; mi := mi m |}
             (func_env fds (length (cells st)) e) (func_cenv fds (L + 1) ce)
             (map fd_name fds ++ sc) (L + Z.of_nat k) (rev (seq (length h) k) ++ stk).
 Proof.
-  intros G fc gp gl m e ce sc L stk fds st h nv nf Hem Hnd Hnew Hlen k.
-  set (m' := {| mm := mm m ++ map MA (seq (length h) k); mv := mv m ++ nv; mf := mf m ++ nf; mc := mc m |}).
-  assert (He : ext m m') by (split; [|split; [|split]]; simpl; [eexists; reflexivity | eexists; reflexivity | eexists; reflexivity | exists []; now rewrite app_nil_r]).
-  destruct Hem as (H1 & H2 & H3 & H4 & H5 & H6 & H7).
+  intros G IV fc gp gl m e ce sc L stk fds st h nv nf Hem Hnd Hnew Hlen k.
+  set (m' := {| mm := mm m ++ map MA (seq (length h) k); mv := mv m ++ nv; mf := mf m ++ nf; mc := mc m; mi := mi m |}).
+  assert (He : ext m m') by ext_solve.
+  destruct Hem as (H1 & H2 & H3 & H4 & H5 & H6 & H7 & H8).
   assert (Hne : forall y, mem_id y sc = true -> forall f, In f fds -> fd_name f <> y).
   { intros y Hy f Hf E. destruct (Hnew f Hf) as [Hx _]. rewrite E in Hx. congruence. }
-  split; [|split; [|split; [|split; [|split; [|split]]]]].
+  split; [|split; [|split; [|split; [|split; [|split; [|split]]]]]].
   - intros y Hy. rewrite mem_id_app' in Hy. apply orb_true_iff in Hy.
     destruct (mem_id y (map fd_name fds)) eqn:Erun.
     + (* a function of the run *)
@@ -922,12 +1002,18 @@ Proof.
     + split; [apply (proj1 (proj2 (Hnew f Hf)))|]. rewrite (In_mem_id_true _ _ (in_map fd_name _ _ Hf)). reflexivity.
     + destruct (H5 x i Hc') as [A B]. split; [exact A|]. rewrite B. apply orb_true_r.
   - intros f Hf0 Hcl. destruct (clookup_func_cenv_none _ _ _ _ Hcl) as [Hnf Hcl0].
-    destruct (self_match_ext _ _ _ _ _ _ _ _ H6 He f Hf0 Hcl0) as (cf & k0 & sfd & scenv & A & B).
+    destruct (self_match_ext _ _ _ _ _ _ _ _ _ H6 He f Hf0 Hcl0) as (cf & k0 & sfd & scenv & A & B).
     exists cf, k0, sfd, scenv. split; [|exact B]. rewrite func_env_other by exact Hnf. exact A.
   - intros f Hf0. rewrite mem_id_app'. rewrite (H7 f Hf0), orb_false_r.
     destruct (mem_id f (map fd_name fds)) eqn:Em; [|reflexivity]. exfalso.
     apply mem_id_true_In in Em. apply in_map_iff in Em. destruct Em as (g0 & E & Hg0).
-    destruct (Hnew g0 Hg0) as (_ & _ & Hx). unfold self_is in Hx. rewrite Hf0, E, N.eqb_refl in Hx. discriminate.
+    destruct (Hnew g0 Hg0) as (_ & _ & Hx & _). unfold self_is in Hx. rewrite Hf0, E, N.eqb_refl in Hx. discriminate.
+  - intros x c Hys Hx Hl. rewrite mem_id_app' in Hys. destruct (mem_id x (map fd_name fds)) eqn:Em.
+    + exfalso. apply mem_id_true_In in Em. apply in_map_iff in Em. destruct Em as (f & E & Hf).
+      destruct (Hnew f Hf) as (_ & _ & _ & Hy). rewrite E in Hy. congruence.
+    + cbn [orb] in Hys. destruct (lookup_func_env_cases _ _ _ _ _ Hl) as [(f & Hf & E) | Hl'].
+      * exfalso. destruct (Hnew f Hf) as (_ & _ & _ & Hy). rewrite E in Hy. congruence.
+      * eapply ext_mi; [exact He | eapply H8; eauto].
 Qed.
 
 (* ---- small arithmetic facts ---------------------------------------------------------------- *)
